@@ -25,8 +25,9 @@ claim("C08", "proof",
       "enforced on it with cut points at the round labels: every round == ref_round, jump-table dispatch enters at "
       "first_round, callee-saved registers restored, only *state written. All inputs are symbolic: a proof, not a sample.",
       "Trusted for the assembly: the lifter's instruction table and the calling convention (stated in the lifter and in "
-      "the evidence). Not covered: the other eleven assembly backends; byte operations of the 32-bit sliced and generic backends are in the thorough tier only "
-      "where they complete. Trusted: CBMC/CaDiCaL, the reference transcription in spec/spec_perm.h (cross-checked "
+      "the evidence). Not covered: the other eleven assembly backends; the byte operations of the 32-bit bit-sliced backend are "
+      "decided by enumeration of constant (offset, size) pairs (sample in the quick tier, all 861 pairs in the thorough tier), "
+      "those of the direct-xor/generic backend in the thorough tier. Trusted: CBMC/CaDiCaL, the reference transcription in spec/spec_perm.h (cross-checked "
       "against the KAT vectors natively).",
       "CBMC code contracts (DFCC): enforced function contracts + loop contracts, SAT back end", "4/C08")
 
@@ -98,7 +99,7 @@ claim("C10", "proof",
       "arbitrary re-sharing). The masked one-shot AEAD entry points equal the unmasked specification for every random "
       "tape at enumerated lengths, on both word backends.",
       "Not covered: 32-bit and direct-xor masked word backends; masked AEAD only at enumerated constant lengths around the "
-      "block boundaries; assembly only for the MAX_SHARES == 4 layout; lifter instruction table trusted. Quick tier samples "
+      "block boundaries; assembly: MAX_SHARES == 4 layout in the quick tier, 3 and 2 layouts in the thorough tier; lifter instruction table trusted. Quick tier samples "
       "the x3/x4 assembly rounds by seed; the thorough tier runs all.",
       "CBMC: full-domain assertions on loop-free code, loop contracts + enforced function contracts for the masked permutations, must-refute obligations", "4/C10")
 claim("C13", "proof",
